@@ -87,7 +87,7 @@ JudgeObs(e) ==
   LET B == Eff(Br(e)) IN
   [why |->   Cl(e.running = B.running, "C17:running-flag")
           \o Cl(SetOf(e.listening) = B.bound, "C17:listening-ports")
-          \o Cl(\A p \in PortSet(B) : (p \in SetOf(e.bindable)) <=> Bindable(B, p), "C17:ports-released"),
+          \o Cl(\A p \in PortSet(B) \ B.limbo : (p \in SetOf(e.bindable)) <=> Bindable(B, p), "C17:ports-released"),
    tag |-> (IF B.running THEN "obs-running" ELSE IF B.closing # {} THEN "obs-closing" ELSE "obs-stopped") \o (IF Br(e) = 2 THEN "-second-bridge" ELSE "")]
 
 Upd(k, B2) == [BB EXCEPT ![k] = [B2 EXCEPT !.occupied = {}]]
